@@ -1054,6 +1054,14 @@ func (env *Env) call(x *ast.CallExpr) (Val, error) {
 		name := "$calls_" + cn
 		vc.mapSort(name, "Int")
 		return mathVal(sApp("-", vc.hget(env.heap, name), vc.hget(vc.heap0, name))), nil
+	case "lastcall":
+		// lastcall(Name): position on the path of the most recent call of Name (0: not called in this activation);
+		// positions of different names are comparable (one event counter per path)
+		cn := strings.ReplaceAll(exprStr(x.Args[0]), ".", "__")
+		name := "$calls_$last_" + cn
+		vc.mapSort(name, "Int")
+		vc.mapSort("$calls_$tick", "Int")
+		return mathVal(vc.hget(env.heap, name)), nil
 	case "sameheap":
 		// sameheap(Type.field, ...): the named field maps are identical to the old state
 		var cs []string
